@@ -19,35 +19,38 @@ open MiniPy Gen.PyFuns
 /-- **`for_me` refines `Sp.forMe`**: for every list of AudienceRestrictions (any number, each with any number of
     Audience elements with present, empty or absent text) and every own entityID, running the CURRENT text of
     `saml2.response.for_me` gives exactly what the model's `forMe` gives. -/
-theorem for_me_refines (me : String) (rs : List (List (Option String))) :
-    run Sp.pyStrip noExt for_me [encC rs, .str me] = .value (.bool (Sp.forMe me (toModel rs))) := by
+theorem for_me_refines_obj (me : String) (rs : List (List (Option String))) (fs : List (String × Val))
+    (hfs : lookup fs "audience_restriction" = some (.list (rs.map encR))) :
+    run Sp.pyStrip noExt for_me [.obj fs, .str me] = .value (.bool (Sp.forMe me (toModel rs))) := by
   rw [forMe_toModel]
   have hpar : for_me.params = ["conditions", "myself"] := rfl
   cases hrs : rs with
   | nil =>
-    simp [run, hpar, for_me_shape, defaultFuel, evalBlock, evalStmt, evalExpr, encC, lookup_cons_same, truthy, lookup]
+    subst hrs
+    have hc : lookup [("myself", Val.str me), ("conditions", Val.obj fs)] "conditions" = some (.obj fs) := by simp [lookup]
+    simp [run, hpar, for_me_shape, defaultFuel, evalBlock, evalStmt, evalExpr, hc, hfs, truthy]
   | cons r0 rs0 =>
     rw [← hrs]
     have hne : rs.isEmpty = false := by rw [hrs]; rfl
-    let envI : Env := [("myself", .str me), ("conditions", encC rs)]
+    let envI : Env := [("myself", .str me), ("conditions", .obj fs)]
     let env0 : Env := setVar envI "matched" (.bool false)
-    have hcI : lookup envI "conditions" = some (encC rs) := by simp [envI, lookup]
+    have hcI : lookup envI "conditions" = some (.obj fs) := by simp [envI, lookup]
     have hme0 : lookup env0 "myself" = some (.str me) := by
       show lookup (setVar _ "matched" _) "myself" = _
       rw [lookup_setVar_ne _ _ _ _ (by decide)]; simp [envI, lookup]
-    have hc0 : lookup env0 "conditions" = some (encC rs) := by
+    have hc0 : lookup env0 "conditions" = some (.obj fs) := by
       show lookup (setVar _ "matched" _) "conditions" = _
       rw [lookup_setVar_ne _ _ _ _ (by decide)]; exact hcI
     have hma0 : lookup env0 "matched" = some (.bool false) := lookup_setVar_same _ _ _
     have h1 : evalStmt Sp.pyStrip noExt 63 envI
         (.ifs (.not (.attr (.name "conditions") "audience_restriction")) [(.ret (some (.bool true)))] []) = .normal envI := by
-      simp [evalStmt, evalExpr, hcI, encC, lookup_cons_same, truthy, hne, evalBlock]
+      simp [evalStmt, evalExpr, hcI, hfs, truthy, hne, evalBlock]
     have h2 : evalStmt Sp.pyStrip noExt 62 envI (.assign "matched" (.bool false)) = .normal env0 := by
       simp [evalStmt, evalExpr, env0]
     have h3 : evalStmt Sp.pyStrip noExt 61 env0
         (.for "restriction" (.attr (.name "conditions") "audience_restriction") outerBody []) =
         forLoop (outerB 49) (outerE 49) (rs.map encR) env0 := by
-      simp [evalStmt, evalExpr, hc0, encC, lookup_cons_same]
+      simp [evalStmt, evalExpr, hc0, hfs]
       rfl
     have h4 : ∀ (env' : Env) (b : Bool), lookup env' "matched" = some (.bool b) →
         evalStmt Sp.pyStrip noExt 60 env' (.ifs (.not (.name "matched")) [] []) = .normal env' := by
@@ -58,7 +61,7 @@ theorem for_me_refines (me : String) (rs : List (List (Option String))) :
       intro env' b hb
       simp [evalStmt, evalExpr, hb]
     have hloop := outer_loop 49 me rs env0 false hme0 hma0
-    have hrun : run Sp.pyStrip noExt for_me [encC rs, .str me] =
+    have hrun : run Sp.pyStrip noExt for_me [.obj fs, .str me] =
         (match evalBlock Sp.pyStrip noExt 64 envI for_me.body with
          | .normal _ => .value .none
          | .ret v _ => .value v
@@ -82,6 +85,11 @@ theorem for_me_refines (me : String) (rs : List (List (Option String))) :
       rw [evalBlock_cons, h5 env' _ hma']
       simp [hne]
 
+
+/-- **`for_me` refines `Sp.forMe`**, for the bare encoding of the audience restrictions. -/
+theorem for_me_refines (me : String) (rs : List (List (Option String))) :
+    run Sp.pyStrip noExt for_me [encC rs, .str me] = .value (.bool (Sp.forMe me (toModel rs))) :=
+  for_me_refines_obj me rs _ (lookup_cons_same _ _ _)
 
 /-! ## `StatusResponse._verify` (Destination against the own return addresses, IssueInstant, status) -/
 
